@@ -44,9 +44,9 @@ CLAIMED = {
          "Write-once objects (the property's premise); thread interleavings are whatever the OS produces.",
          "DESIGN.md section 3 C16"),
  "C17": ("exploration",
-         "generated well-formed requests through the real entry points (axum router POST /api/v1/write, OtlpGrpcService::export, FlightIngestService::process_stream) -> real ingester -> flushed chunk compared row by row; structure-aware hostile mutations; worker processes with a per-case progress file so that a panic, a process death or a >10 s stall inside one body is the recorded outcome",
+         "generated well-formed requests through the real entry points (axum router POST /api/v1/write, OtlpGrpcService::export, FlightIngestService::process_stream) -> real ingester -> flushed chunk compared row by row; structure-aware hostile mutations; worker processes with a per-case progress file so that a panic, a process death or a hang (more than 20 s of the worker's user-mode CPU time inside one body without finishing it) is the recorded outcome",
          "Held on every request explored, apart from two recorded findings: remote-write (overlapping / disjoint label sets, missing metric name, value classes incl. +-0, 2^53+-, +-2^63, 2^64, 1e300, inf, NaN, subnormal; unknown fields), OTLP gauge / sum / histogram / summary with resource + point attributes and int/double points, Flight streams of 3 schemas; hostile: length varints := 0, 1, 2^31, 2^32-1, 2^63, 2^64-1, truncation, bit flips, concatenation, hostile unknown fields, random bytes, for all three protocols. Known findings (not repaired): OTLP ints above 2^53, labels named like reserved columns.",
-         "Timestamps representable in ns and within two hours per request; prost is the reference for 'truncated encoding'; the hang verdict uses a 10 s wall-clock stall where normal is < 1 ms per body.",
+         "Timestamps representable in ns and within two hours per request; prost is the reference for 'truncated encoding'; the hang verdict is taken on the receiving process's user-mode CPU time (more than 20 s inside one body where the typical body costs < 1 ms and the heaviest generated one about 1 s); kernel time and wall-clock time decide nothing (DESIGN.md 10.10); a receiver that blocks without using the CPU ends as inconclusive, not as a violation.",
          "DESIGN.md section 3 C17"),
  "C19": ("exploration",
          "random membership / health histories against the real NodeRegistry + ShardAssignment + DistributedWriteRouter in worker processes; logical step counter fed by the code's own trace events aborts and reports a route_write that exceeds 2*|nodes|+4 reassignments; registry re-read at return",
